@@ -20,7 +20,8 @@ func init() {
 			"(H) every header/trailer copy on the response side is guarded by the hop-by-hop predicate on the same key, and the two hop-by-hop tables equal the RFC 7230 set (+Proxy-Connection); " +
 			"(C) chunked framing is forced on the very response that is serialised, before serialisation; " +
 			"(S) the wrappers forward their own status parameter and their own byte slice; the proxy copies status/body/trailers of the received response. " +
-			"(X, second part) for every ResponseWriter implementation WriteHeader(103) followed by WriteHeader(404) is simulated by partial evaluation (field stores of the first call feed the second): the final status must still be forwarded/published, whatever the type of the latch; (R) a retried upload restarts through the refusing rewind (shared with C06.S); (M) no pooled buffers on the response path.",
+			"(X, second part) for every ResponseWriter implementation WriteHeader(103) followed by WriteHeader(404) is simulated by partial evaluation (field stores of the first call feed the second): the final status must still be forwarded/published, whatever the type of the latch; (R) a retried upload restarts through the refusing rewind (shared with C06.S); (M) no pooled buffers on the response path. " +
+			"(C, proxy side) the stand-alone proxy sets Transfer-Encoding: chunked before WriteHeader(resp.StatusCode) independently of any field of the response; (W) writer types and the response forwarder grow no exported methods beyond their pinned method sets (net/http type-asserts optional interfaces).",
 		Assumptions: []string{
 			"net/http Response.Write / ReadResponse / ReverseProxy preserve status, header values, body bytes and trailers (stdlib behaviour on run-time values is not analysed)",
 			"statuses are classified by the representative values 100,102,103,150,199 (interim) and 101,200,204,301,304,404,500,599 (final); a comparison against any other constant inside a class is not distinguished",
@@ -56,9 +57,60 @@ func runC03(c *Ctx) {
 	c.Rule("C03.H", "hop-by-hop tables exact; every response-side header/trailer copy guarded by the predicate on the same key", 14)
 	ruleHopTables(c, p, "C03.H")
 	ruleHopGuardsResponse(c, p, "C03.H")
-	c.Rule("C03.C", "forced chunked framing dominates serialisation of the same response", 1)
+	c.Rule("C03.C", "forced chunked framing dominates serialisation of the same response (agent and stand-alone proxy)", 2)
 	ruleForcedChunked(c, p, "C03.C")
-	c.Rule("C03.S", "status and body pass through the wrappers and the proxy unchanged", 12)
+	// the stand-alone proxy forces chunked framing towards the client before the status is written
+	if f := c.need(p, "C03.C", "server.(*proxy).ServeHTTP"); f != nil {
+		var add, wh ssa.Instruction
+		EachInstr(f, func(i ssa.Instruction) {
+			if IsCall(i, "(net/http.Header).Add", "(net/http.Header).Set") {
+				k, _ := ConstString(CallOf(i).Args[1])
+				v, _ := ConstString(CallOf(i).Args[2])
+				if strings.EqualFold(k, "transfer-encoding") && v == "chunked" {
+					add = i
+				}
+			}
+			if IsCall(i, "(net/http.ResponseWriter).WriteHeader") && PathOf(Args(CallOf(i))[0]) == P(f, 1) {
+				if _, isC := ConstInt(Args(CallOf(i))[1]); !isC {
+					wh = i
+				}
+			}
+		})
+		okc := add != nil && wh != nil && Dominates(add, wh)
+		if okc {
+			// unconditional with respect to the response: no guard between receiving the response and the Add
+			for _, g := range GuardingIfs(add) {
+				if !Dominates(g.If, wh) {
+					continue
+				}
+				cond, _ := BoolTest(g.If)
+				if ex, isE := cond.(*ssa.Extract); isE {
+					if _, isNext := ex.Tuple.(*ssa.Next); isNext {
+						continue // the exit test of a preceding range loop
+					}
+				}
+				if bo, isB := cond.(*ssa.BinOp); isB {
+					if ph, isP := bo.X.(*ssa.Phi); isP && ph.Comment == "rangeindex" {
+						continue
+					}
+				}
+				derives := false
+				SliceBack(cond, func(v ssa.Value) bool {
+					if base, fld, ok := FieldLoad(v); ok && NamedType(base.Type()) == "net/http.Response" && (fld == "Trailer" || fld == "ContentLength" || fld == "TransferEncoding" || fld == "Header" || fld == "Body") {
+						derives = true
+					}
+					return true
+				})
+				if derives {
+					okc = false
+				}
+			}
+		}
+		c.Check("C03.C", "proxy:forced-chunked-before-status", p, f.Pos(), okc, "Transfer-Encoding: chunked is set on every relayed response before its status is written: trailers that appear only at the end of the body can still be sent", "the stand-alone proxy does not unconditionally force chunked framing before WriteHeader(resp.StatusCode): with a Content-Length computed by net/http (short bodies) trailers that were not announced are silently dropped")
+	}
+	c.Rule("C03.W", "writer types do not grow optional net/http interfaces", 4)
+	ruleWriterMethodSets(c, p, "C03.W")
+	c.Rule("C03.S", "status and body pass through the wrappers and the proxy unchanged", 10)
 	ruleStatusBodyPassThrough(c, p, "C03.S")
 }
 
@@ -252,7 +304,7 @@ func hopTableKeys(p *Prog) (utilsKeys, serverKeys []string, ok1, ok2 bool) {
 			st := false
 			for _, r := range Refs(mu.Map) {
 				if s, ok := r.(*ssa.Store); ok {
-					if g, ok := s.Addr.(*ssa.Global); ok && g.Name() == "hopHeaders" {
+					if g, ok := s.Addr.(*ssa.Global); ok && GlobalName(g) == "hopHeaders" {
 						st = true
 					}
 				}
@@ -370,23 +422,8 @@ func canonicalHeaderKey(s string) string {
 func hopGuard(i ssa.Instruction, key ssa.Value, want bool) bool {
 	for _, g := range GuardingIfs(i) {
 		cond, trueSucc := BoolTest(g.If)
-		isHop := false
-		// comma-ok lookup
-		if e, ok := cond.(*ssa.Extract); ok && e.Index == 1 {
-			if lk, ok := e.Tuple.(*ssa.Lookup); ok {
-				if PathOf(lk.X) == "*global:hopHeaders" && sameKey(lk.Index, key) {
-					isHop = true
-				}
-			}
-		}
-		// plain lookup hopHeaders[k] (bool value)
-		if lk, ok := cond.(*ssa.Lookup); ok && PathOf(lk.X) == "*global:hopHeaders" && sameKey(lk.Index, key) {
-			isHop = true
-		}
-		if call, ok := cond.(*ssa.Call); ok && strings.HasSuffix(CalleeName(call.Common()), "/server.isHopByHopHeader") && sameKey(call.Call.Args[0], key) {
-			isHop = true
-		}
-		if !isHop {
+		tested, isHop := hopPredicate(cond, 0)
+		if !isHop || !sameKey(tested, key) {
 			continue
 		}
 		taken := g.Succ == trueSucc // instruction is on the "is hop-by-hop" side
@@ -395,6 +432,47 @@ func hopGuard(i ssa.Instruction, key ssa.Value, want bool) bool {
 		}
 	}
 	return false
+}
+
+// hopPredicate recognises a hop-by-hop membership test and returns the key
+// it tests: hopHeaders[k] (plain or comma-ok), server.isHopByHopHeader(k), or
+// a call of a new helper whose result is such a test on one of its parameters
+// (then the key is the argument at this call site).
+func hopPredicate(cond ssa.Value, depth int) (ssa.Value, bool) {
+	switch x := cond.(type) {
+	case *ssa.Extract:
+		if lk, ok := x.Tuple.(*ssa.Lookup); ok && x.Index == 1 && PathOf(lk.X) == "*global:hopHeaders" {
+			return lk.Index, true
+		}
+	case *ssa.Lookup:
+		if PathOf(x.X) == "*global:hopHeaders" {
+			return x.Index, true
+		}
+	case *ssa.Call:
+		if strings.HasSuffix(CalleeName(x.Common()), "/server.isHopByHopHeader") {
+			return x.Call.Args[0], true
+		}
+		if h, ok := x.Call.Value.(*ssa.Function); ok && IsNewHelper(h) && depth < 3 {
+			if rs := helperResults(x, 0); len(rs) == 1 {
+				if inner, ok := hopPredicate(rs[0], depth+1); ok {
+					v := inner
+					for {
+						if ct, isCT := v.(*ssa.ChangeType); isCT {
+							v = ct.X
+							continue
+						}
+						break
+					}
+					for k, prm := range h.Params {
+						if v == ssa.Value(prm) && k < len(x.Call.Args) {
+							return x.Call.Args[k], true
+						}
+					}
+				}
+			}
+		}
+	}
+	return nil, false
 }
 
 // sameKey: the same SSA value, or the key is derived from it by prefixing a
@@ -599,6 +677,9 @@ func unknownGuards(p *Prog, i ssa.Instruction, fn *ssa.Function) string {
 }
 
 func knownGuard(cond ssa.Value, fn *ssa.Function) bool {
+	if _, isHop := hopPredicate(cond, 0); isHop {
+		return true
+	}
 	switch x := cond.(type) {
 	case *ssa.Extract:
 		switch t := x.Tuple.(type) {
